@@ -1325,3 +1325,196 @@ func R57() Rule {
 		c.Check(ok && n > 0, "R57", "validTimestamp/whole-milliseconds-on-every-accepting-path", fn.Pos(), "a timestamp is accepted only through the `ts % 1000 == 0` test", "validTimestamp can accept a timestamp without the whole-millisecond test (the test is conditional): sub-millisecond timestamps are stored instead of rejected")
 	}}
 }
+
+// ---------------------------------------------------------------------------
+// R58: small semantic anchors that several independent seeded changes aimed at
+// ---------------------------------------------------------------------------
+
+// R58 (a) isEmpty ("the row has no cell") answers false only on the evidence of a
+// cell: every `return false` is dominated by a test that a column's Cells slice is
+// non-empty.  Filters leave families and columns with zero cells behind, so
+// "has a column" is not "has a cell" (CheckAndMutateRow would take the true
+// branch for a predicate that strips every cell).  (b) ListTables matches a
+// table's parent with the "/tables/" separator included: a prefix test against the
+// bare parent also lists the tables of every parent whose name merely starts with
+// it.  (c) in the listing walk, a directory entry never reaches the per-object
+// logic: every path from the IsDir edge leaves the callback.  (d) the timestamp
+// of the cell written by ReadModifyWriteRow depends on the newest existing cell's
+// timestamp (arbitration against a cell dated in the future).
+func R58() Rule {
+	return Rule{Name: "R58", Run: func(c *core.Ctx) {
+		P := c.P
+		if P.SPkgs[core.PkgBttest] != nil {
+			// (a)
+			if fn := P.Func(core.PkgBttest, "isEmpty"); fn != nil && fn.Blocks != nil {
+				c.Fn("isEmpty")
+				ok, n := true, 0
+				for _, r := range returnsIn(fn) {
+					for _, v := range returnValues(r.Results[0]) {
+						if bv, isB := core.ConstBool(v); isB && bv {
+							continue
+						}
+						n++
+						cellEvidence := false
+						for _, f := range core.FactsAt(r.Block()) {
+							l, op, rr, isCmp := cmpNorm(f)
+							if !isCmp {
+								continue
+							}
+							la := lenArg(l)
+							k, isK := core.ConstInt(rr)
+							if la == nil || !isK {
+								continue
+							}
+							if ld, isLd := core.Resolve(la).(*ssa.UnOp); isLd {
+								if fa, isFa := ld.X.(*ssa.FieldAddr); isFa && isCellsField(fa) {
+									if (op == token.GTR && k >= 0) || (op == token.NEQ && k == 0) || (op == token.GEQ && k >= 1) {
+										cellEvidence = true
+									}
+								}
+							}
+						}
+						if !cellEvidence {
+							ok = false
+						}
+					}
+				}
+				c.Check(ok && n > 0, "R58", "a/isEmpty-looks-at-cells", fn.Pos(), "isEmpty answers 'not empty' only after finding a column with at least one cell", "isEmpty answers 'not empty' without having seen a cell (e.g. because a family has columns): a filtered copy keeps families and columns whose cells were all stripped, so a predicate that yields no cell is reported as matched")
+			}
+			// (b)
+			if fn := P.Func(core.PkgBttest, "(*server).ListTables"); fn != nil && fn.Blocks != nil {
+				c.Fn("(*server).ListTables")
+				k := 0
+				for _, f := range P.Scope(fn, func(f *ssa.Function) bool { return core.PkgPathOf(f) != core.PkgBttest }) {
+					for _, ci := range core.AllCalls(f) {
+						if !ci.IsFunc("strings", "HasPrefix") {
+							continue
+						}
+						k++
+						// the prefix ends with the "/tables/" separator
+						withSep := false
+						for _, o := range P.Origins(ci.Common.Args[1], nil) {
+							if bin, isBin := o.(*ssa.BinOp); isBin && bin.Op == token.ADD {
+								if sv, isS := core.ConstString(bin.Y); isS && strings.HasPrefix(sv, "/") && strings.HasSuffix(sv, "/") {
+									withSep = true
+								}
+							}
+						}
+						c.Check(withSep, "R58", fmt.Sprintf("b/ListTables/parent-prefix-includes-separator#%d", k), ci.Instr.Pos(), "the table name is matched against parent + \"/tables/\"", "ListTables matches table names against a prefix that does not end with the \"/tables/\" separator: a parent whose name is a prefix of another parent's also lists that parent's tables")
+					}
+				}
+			}
+			// (d)
+			if fn := P.Func(core.PkgBttest, rpcRMW); fn != nil && fn.Blocks != nil {
+				rmwStop := map[string]bool{"appendOrReplaceCell": true, "getOrCreateFamily": true, "getOrCreateColumn": true, "(*table).getOrCreateRow": true, "(*table).updateRow": true, "scrubRow": true}
+				scope := P.Scope(fn, func(f *ssa.Function) bool { return core.PkgPathOf(f) != core.PkgBttest || rmwStop[core.FuncName(f)] })
+				within := setOf(scope)
+				nTs, okArb := 0, true
+				for _, sf := range scope {
+					for _, b := range sf.Blocks {
+						for _, in := range b.Instrs {
+							st, ok := in.(*ssa.Store)
+							if !ok {
+								continue
+							}
+							fa, ok := st.Addr.(*ssa.FieldAddr)
+							if !ok || !core.TypeIs(fa.X.Type(), pkgBtpb, "Cell") {
+								continue
+							}
+							if _, f, _ := core.FieldName(fa); f != "TimestampMicros" {
+								continue
+							}
+							nTs++
+							dep := false
+							seen := map[ssa.Value]bool{}
+							var walk func(v ssa.Value, d int)
+							walk = func(v ssa.Value, d int) {
+								v = core.Strip(v)
+								if d > 14 || seen[v] || dep {
+									return
+								}
+								seen[v] = true
+								if isCellTs(v) {
+									dep = true
+									return
+								}
+								switch x := v.(type) {
+								case *ssa.Parameter:
+									for _, o := range P.Origins(x, within) {
+										if o != ssa.Value(x) {
+											walk(o, d+1)
+										}
+									}
+								case *ssa.UnOp:
+									if cell := core.CellOf(x.X); cell != nil {
+										for _, s2 := range core.StoresTo(cell) {
+											walk(s2.Val, d+1)
+										}
+									}
+								case *ssa.Call:
+									for _, a := range x.Call.Args {
+										walk(a, d+1)
+									}
+								default:
+									if inst, isI := v.(ssa.Instruction); isI {
+										for _, op := range inst.Operands(nil) {
+											if *op != nil {
+												walk(*op, d+1)
+											}
+										}
+									}
+								}
+							}
+							walk(st.Val, 0)
+							if !dep {
+								okArb = false
+							}
+						}
+					}
+				}
+				if nTs > 0 {
+					c.Check(okArb, "R58", "d/ReadModifyWriteRow/timestamp-arbitrated-against-newest-cell", fn.Pos(), "the new cell's timestamp depends on the newest existing cell's timestamp", "the timestamp of the cell written by ReadModifyWriteRow no longer depends on the newest existing cell: when that cell is dated after the server clock the result is stored behind it and every later rule re-reads the old operand (increments are lost)")
+				}
+			}
+		}
+		// (c)
+		if P.SPkgs[core.PkgGcsemu] != nil {
+			if fn := P.Func(core.PkgGcsemu, "(*GcsEmu).makeBucketListResults"); fn != nil && fn.Blocks != nil {
+				for _, f := range P.Scope(fn, func(f *ssa.Function) bool { return core.PkgPathOf(f) != core.PkgGcsemu }) {
+					for _, b := range f.Blocks {
+						ifi, ok := b.Instrs[len(b.Instrs)-1].(*ssa.If)
+						if !ok {
+							continue
+						}
+						call, isCall := core.Resolve(ifi.Cond).(*ssa.Call)
+						if !isCall || !call.Call.IsInvoke() || call.Call.Method.Name() != "IsDir" {
+							continue
+						}
+						c.Fn(core.FuncName(f))
+						// from the directory edge no per-object bookkeeping (an append, a counter update) is reachable
+						reach := core.ReachableFrom(b.Succs[0], true)
+						var bad ssa.Instruction
+						for rb := range reach {
+							for _, in := range rb.Instrs {
+								switch x := in.(type) {
+								case *ssa.Call:
+									if bi, isB := x.Call.Value.(*ssa.Builtin); isB && bi.Name() == "append" {
+										bad = in
+									}
+								case *ssa.MapUpdate:
+									bad = in
+								}
+							}
+						}
+						construct := fmt.Sprintf("c/%s/directories-never-counted", core.FuncName(f))
+						if bad != nil {
+							c.Bad("R58", construct, bad.Pos(), "a directory entry of the file store's walk can reach the per-object bookkeeping of the listing: directories are counted against maxResults and recorded as found (pages come out short, a page of directories ends the listing)")
+						} else {
+							c.Ok("R58", construct, ifi.Pos(), true, "the directory branch leaves the callback on every path")
+						}
+					}
+				}
+			}
+		}
+	}}
+}
